@@ -602,6 +602,14 @@ EXPECT_GETITEM = """def __getitem__(self, key):
     if val.ndim == 0:
         val = np.array([val])
     return AdArray(val, self.jac[key])"""
+EXPECT_SETITEM = """def __setitem__(self, key, new_value):
+    if isinstance(new_value, np.ndarray | pp.number):
+        self.val[key] = new_value
+    elif isinstance(new_value, AdArray):
+        self.val[key] = new_value.val
+        self.jac[key] = new_value.jac
+    else:
+        raise NotImplementedError('Setting')"""
 EXPECT_INIT = """def initAdArrays(variables):
     num_values_per_variable = [v.size for v in variables]
     ad_arrays: list[AdArray] = []
@@ -675,6 +683,8 @@ def translate(repo, out_path):
             raise TranslateError(f"AdArray.{m} not found")
     if _norm_src(methods["__getitem__"]) != EXPECT_GETITEM:
         raise TranslateError("AdArray.__getitem__ changed; it is modelled by hand (row selection of val and jac):\n" + _norm_src(methods["__getitem__"]))
+    if "__setitem__" not in methods or _norm_src(methods["__setitem__"]) != EXPECT_SETITEM:
+        raise TranslateError("AdArray.__setitem__ changed; it is modelled by hand (Tree.setrows: rows of val and jac replaced by those of the AdArray value)")
     if _norm_src(init[0]) not in (EXPECT_INIT, EXPECT_INIT.replace("sps.bmat([jac])", "sps.bmat([jac], format='csr')")):
         raise TranslateError("initAdArrays changed; it is modelled by hand (identity block per variable):\n" + _norm_src(init[0]))
 
